@@ -333,8 +333,11 @@ func (r *Run) Finish(minEvals int64) int {
 		}
 		seen[v.Key] = true
 		d, _ := json.Marshal(v.Detail)
-		if len(d) > 600 {
-			d = append(d[:600], "..."...)
+		if len(d) > 400 {
+			d = append(d[:400], "..."...)
+		}
+		if len(seen) > 6 {
+			continue
 		}
 		fmt.Printf("VIOLATION property=%s replay=%s key=%s detail=%s\n", r.Prop, v.Replay, v.Key, d)
 	}
